@@ -36,4 +36,5 @@ CONF = dict(
  'duration or non-finite frequency, and restarts on an epoch change'),
     timeout_quick=600,
     timeout_thorough=3000,
+    min_cases={'pll.history': 1502, 'pll.longgap': 1},
 )
